@@ -97,7 +97,11 @@ func (c *c10) check(d *observe.Dump, when string, target []*MFile, afterCrash bo
 			r.Fail(propC10, "order", sig("file-before-predecessor"), "%s: %s has effects/revision but its predecessor is not complete: effects %s revisions [%s]", when, f.Name, EffectVector(d, c.files), d.RevDigest())
 			return
 		}
-		switch c.mode {
+		em := c.mode
+		if em != "all" {
+			em = effective(c.mode, f)
+		}
+		switch em {
 		case "file":
 			if !c.complete(d, f) && !c.untouched(d, f) {
 				r.Fail(propC10, "file-atomicity", sig("half-applied-file"), "%s: in file mode %s is neither fully applied nor absent: effects %s revisions [%s]", when, f.Name, EffectVector(d, c.files), d.RevDigest())
@@ -119,7 +123,7 @@ func (c *c10) check(d *observe.Dump, when string, target []*MFile, afterCrash bo
 		}
 		for _, s := range f.Stmts {
 			n := Effect(d, s)
-			if n > 2 || (n == 2 && !(c.mode == "none" && c.allowedDup[s.ID])) {
+			if n > 2 || (n == 2 && !(em == "none" && c.allowedDup[s.ID])) {
 				r.Fail(propC10, "multiplicity", sig("statement-repeated"), "%s: statement %s took effect %d times (mode %s, in-flight statements at crashes: %v)", when, s.ID, n, c.mode, keys(c.allowedDup))
 				return
 			}
@@ -202,12 +206,17 @@ func (c *c10) expectedAfterCrash(before *observe.Dump, target []*MFile, p string
 		}
 		return crashed
 	}
+	em := ""
 	step := func() {
-		if c.mode == "none" {
+		if em == "none" {
 			commit()
 		}
 	}
 	for _, f := range target {
+		em = c.mode
+		if em != "all" {
+			em = effective(c.mode, f)
+		}
 		st := cur[f.Idx]
 		if at("apply:before-file") || at("exec:before-init-write") {
 			break
@@ -238,7 +247,7 @@ func (c *c10) expectedAfterCrash(before *observe.Dump, target []*MFile, p string
 		if crashed || at("exec:before-final-write") || at("exec:after-final-write") || at("apply:before-file-commit") {
 			break
 		}
-		if c.mode == "file" {
+		if em == "file" {
 			commit()
 		}
 		if at("apply:after-file-commit") {
@@ -271,6 +280,20 @@ func C10(r *simkit.Run) {
 	mode := TxModes[cell%len(TxModes)]
 	point := CrashPoints[cell/len(TxModes)]
 	files := GenDir(t, 1, 4, 4, mode != "none" || t.Chance("ddl-in-none", 1, 2))
+	// Per-file atlas:txmode directives override the global mode (not allowed under "all").
+	if mode != "all" && t.Chance("use-directives", 1, 3) {
+		for _, f := range files {
+			switch t.Weighted("directive", 2, 1, 1) {
+			case 1:
+				f.TxMode = "none"
+			case 2:
+				f.TxMode = "file"
+			}
+			if f.TxMode != "" && f.TxMode != mode {
+				r.Probe("directive-overrides-global-mode")
+			}
+		}
+	}
 	w.WriteDir(files)
 	c := &c10{r: r, w: w, files: files, mode: mode, allowedDup: map[string]bool{}}
 	r.Sample("mode=%s dir: %s", mode, Describe(files))
